@@ -1017,6 +1017,224 @@ def drain2_jobs(tier):
     return [[(lim, chunk, b)] for lim in ((100, 20), (100, 0), (64, 64), (200, 50)) for chunk in (60, 150, 250)]
 
 
+# ------------------------------------------------------------------ (e) in-band events on a server's stdin stream
+def _ev_of(exc):
+    if isinstance(exc, asyncssh.SignalReceived):
+        return ('sig', exc.signal)
+    if isinstance(exc, asyncssh.BreakReceived):
+        return ('break', exc.msec)
+    if isinstance(exc, asyncssh.TerminalSizeChanged):
+        return ('winch', exc.width, exc.height)
+    return None
+
+
+def inband_run(cfg, chooser, seed=0):
+    """The client writes chunks and sends signals / breaks / terminal size changes in between; the server's handler
+    reads its stdin with one call menu.  Scheduling: at every step either the next packet is delivered or the reader
+    is allowed one more call (default: deliveries first, so events interrupt multi-chunk buffers; deviations let the
+    reader run early and be blocked inside a call when chunk or event arrives).  Oracle: each stretch of data between
+    two events is split like a stream ending there (splitter model), every event is raised exactly once, after all
+    data sent before it and before any data sent after it."""
+    script, pkt, calls, text = cfg['script'], cfg['pkt'], cfg['calls'], cfg.get('text', False)
+    loop = P.fresh(seed)
+    P.install_wire_labels()
+    results = []
+    st = {'permits': 0, 'waiting': None, 'done': False}
+    try:
+        enc = 'utf-8' if text else None
+
+        async def handler(process):
+            r = process.stdin
+            i = 0
+            while i < 400:
+                while not st['permits']:
+                    st['waiting'] = loop.create_future()
+                    await st['waiting']
+                st['waiting'] = None
+                st['permits'] -= 1
+                op = calls[i % len(calls)]
+                i += 1
+                try:
+                    if op[0] == 'read':
+                        v = await r.read(op[1])
+                    elif op[0] == 'readexactly':
+                        v = await r.readexactly(op[1])
+                    elif op[0] == 'readline':
+                        v = await r.readline()
+                    elif op[0] == 'readuntil':
+                        v = await r.readuntil(op[1])
+                    results.append((op, 'ok', v))
+                    if not v and op != ('read', 0) and r.at_eof():
+                        break
+                except asyncio.IncompleteReadError as exc:
+                    results.append((op, 'incomplete', exc.partial, exc.expected))
+                    if r.at_eof() and not exc.partial:
+                        break
+                except (asyncssh.SignalReceived, asyncssh.BreakReceived, asyncssh.TerminalSizeChanged) as exc:
+                    results.append((op, 'event', _ev_of(exc)))
+            st['done'] = True
+            process.exit(0)
+        pair = P.Pair(loop, sopts=dict(process_factory=handler, encoding=enc, max_pktsize=pkt))
+        pair.handshake()
+
+        async def client():
+            # a pseudo-terminal only where a size change is sent (bytes mode: no line editor is put in front of stdin)
+            proc = await pair.c.create_process('cmd', encoding=enc,
+                                               term_type='vt100' if any(a[0] == 'winch' for a in script) else None)
+            for a in script:
+                if a[0] == 'w':
+                    proc.stdin.write(a[1])
+                elif a[0] == 'sig':
+                    proc.send_signal(a[1])
+                elif a[0] == 'break':
+                    proc.send_break(a[1])
+                elif a[0] == 'winch':
+                    proc.change_terminal_size(a[1], a[2])
+            proc.stdin.write_eof()
+            return proc
+        task = loop.create_task(client())
+        steps = 0
+        while True:
+            loop.quiesce()
+            if pair.ct in loop.deliverable():       # server -> client traffic (confirmations, window adjusts): no choice
+                P.deliver_packet(loop, pair.ct)
+                steps += 1
+                continue
+            opts = []
+            if pair.st in loop.deliverable():
+                opts.append('deliver')
+            if st['waiting'] is not None and not st['waiting'].done() and not st['done']:
+                opts.append('call')
+            if not opts or st['done']:
+                break
+            k = chooser.choose(len(opts), label='step') if len(opts) > 1 else 0
+            if opts[k] == 'deliver':
+                P.deliver_packet(loop, pair.st)
+            else:
+                st['permits'] += 1
+                st['waiting'].set_result(None)
+            steps += 1
+            if steps > 5000:
+                raise Livelock('too many steps')
+        loop.flush_all()
+        viol = []
+        if not st['done']:
+            viol.append(('reader-hangs', 'the handler never saw EOF: %d results so far' % len(results)))
+        # segments of the script
+        segs, evs, cur = [], [], ('' if text else b'')
+        for a in script:
+            if a[0] == 'w':
+                cur += a[1]
+            else:
+                segs.append(cur)
+                evs.append(tuple(a))
+                cur = cur[:0]
+        segs.append(cur)
+        si = 0
+        m = Model(segs[0])
+        for rec in results:
+            op = rec[0]
+            if rec[1] == 'event':
+                if m.p != len(m.d):
+                    viol.append(('event-before-data', '%r raised with %r of the data sent before it still unread' % (rec[2], m.rest()[:30])))
+                    break
+                if si >= len(evs) or rec[2] != evs[si]:
+                    viol.append(('wrong-event', '%r raised, expected %r' % (rec[2], evs[si] if si < len(evs) else 'EOF')))
+                    break
+                si += 1
+                m = Model(segs[si])
+                continue
+            at_end = m.p == len(m.d)
+            if at_end and si < len(evs) and op != ('read', 0):
+                viol.append(('event-lost', '%r returned %r where %r was due' % (op, rec[1:3], evs[si])))
+                break
+            exp = m.call(op)
+            if exp[0] == 'some':
+                v = rec[2] if rec[1] == 'ok' else None
+                rest = m.rest()
+                if v is None or len(v) > exp[1] or not rest.startswith(v) or (not v and rest):
+                    viol.append(('read-n', 'read(%d) returned %r with %r remaining before the next event' % (exp[1], v, rest[:30])))
+                    break
+                m.p += len(v)
+            elif exp[0] == 'ok':
+                if rec[1] != 'ok' or rec[2] != exp[1]:
+                    viol.append(('wrong-split', '%r returned %r, the stream up to the next event splits as %r' % (op[:2], rec[1:3], exp[1])))
+                    break
+            else:
+                if rec[1] != 'incomplete' or rec[2] != exp[1] or (exp[2] is not None and rec[3] != exp[2]):
+                    viol.append(('wrong-partial', '%r gave %r, expected IncompleteReadError(partial=%r, expected=%r)' % (op[:2], rec[1:], exp[1], exp[2])))
+                    break
+        if not viol and st['done'] and (si != len(evs) or m.p != len(m.d)):
+            viol.append(('data-lost', 'reads ended after %d of %d events, %d of %d units of the last stretch' % (si, len(evs), m.p, len(m.d))))
+        if loop.unretrieved():
+            viol.append(('loop-exception', repr(loop.exc_log[0].get('exception'))[:200]))
+        # what the application saw, flattened (adjacent data merged): the weaker statement C07 makes
+        flat = []
+        for rec in results:
+            item = rec[2]
+            if rec[1] != 'event' and not item:
+                continue
+            if rec[1] != 'event' and flat and not isinstance(flat[-1], tuple):
+                flat[-1] += item
+            else:
+                flat.append(item)
+        sent = [x for pair_ in zip(segs, evs + [None]) for x in pair_ if x is not None and x != segs[0][:0]]
+        return {'viol': viol, 'steps': steps, 'nres': len(results), 'flat': flat, 'sent': sent, 'done': st['done']}
+    except Livelock as exc:
+        return {'viol': [('livelock', str(exc))], 'steps': 0, 'nres': len(results), 'flat': None, 'sent': None, 'done': False}
+    finally:
+        P.done(loop)
+
+
+def inband_scripts():
+    S, B, W = ('sig', 'INT'), ('break', 10), ('winch', 100, 30)
+    w = lambda d: ('w', d)
+    return {
+        'two-chunks-sig': [w(b'abc'), w(b'def'), S, w(b'ghi\n'), w(b'x')],
+        'line-chunks-break-winch': [w(b'ab\ncd'), w(b'ef'), w(b'gh'), B, w(b'\nij'), W],
+        'adjacent-events': [S, w(b'a\n'), S, B, w(b'b')],
+        'event-last': [w(b'abc'), w(b'--d'), S],
+        'three-chunks': [w(b'a'), w(b'b'), w(b'c'), W, w(b'd\n'), w(b'e'), w(b'f'), S, w(b'\n')],
+    }
+
+
+def inband_jobs(tier):
+    callsets = {
+        'readline': [('readline',)], 'readuntil(nl)': [('readuntil', b'\n')], 'readuntil(--|nl)': [('readuntil', (b'--', b'\n'))],
+        'read(2)': [('read', 2)], 'read(100)': [('read', 100)], 'read(-1)': [('read', -1)],
+        'readexactly(2)': [('readexactly', 2)], 'readexactly(4)': [('readexactly', 4)], 'readexactly(100)': [('readexactly', 100)],
+        'mixed': [('readexactly', 1), ('readline',), ('read', 2)],
+    }
+    bound = 2 if tier == 'quick' else 4
+    jobs = []
+    for sname, script in inband_scripts().items():
+        for cname, calls in callsets.items():
+            for pkt in (2, 32768):
+                jobs.append((dict(name=sname, script=script, pkt=pkt, cname=cname, calls=calls), bound))
+    T = [('w', 'aé'), ('w', '€b'), ('sig', 'TERM'), ('w', '\U0001d11e\nz'), ('w', 'y'), ('break', 0), ('w', 'q')]
+    for cname, calls in (('readline', [('readline',)]), ('read(1)', [('read', 1)]), ('readexactly(3)', [('readexactly', 3)]),
+                         ('readuntil(€)', [('readuntil', '€')])):
+        for pkt in (1, 3, 32768):
+            jobs.append((dict(name='text', script=T, pkt=pkt, cname=cname, calls=calls, text=True), bound))
+    return jobs
+
+
+def inband_worker(job):
+    cfg, bound = job
+    acc = core.Acc()
+    name = 'inband|%s|pkt=%d|%s' % (cfg['name'], cfg['pkt'], cfg['cname'])
+
+    def check(obs, ch):
+        acc.add(core.digest((name, tuple(ch.choices))), transitions=obs['steps'],
+                sample={'inband_events': cfg['name'], 'max_pktsize': cfg['pkt'], 'calls': cfg['cname'], 'results': obs['nres']}
+                if not any(ch.choices) else None)
+        for k, d in obs['viol']:
+            acc.violation('inband:%s:%s' % (k, cfg['cname'].split('(')[0]), '%s ; script=%s calls=%s pkt=%d' % (d, cfg['name'], cfg['cname'], cfg['pkt']),
+                          {'kind': 'inband', 'name': cfg['name'], 'cname': cfg['cname'], 'pkt': cfg['pkt'], 'choices': ch.choices})
+    core.explore_dfs(lambda ch: inband_run(cfg, ch), bound, check)
+    return acc
+
+
 def main(tier, seed):
     t0 = core.now()
     os.makedirs(SCRATCH, exist_ok=True)
@@ -1036,6 +1254,7 @@ def main(tier, seed):
     acc.merge(core.pmap(bp_worker, bp_jobs(tier)))
     acc.merge(core.pmap(drain_worker, [0]))
     acc.merge(core.pmap(drain2_worker, drain2_jobs(tier)))
+    acc.merge(core.pmap(inband_worker, inband_jobs(tier), chunksize=2))
     shutil.rmtree(SCRATCH, ignore_errors=True)
     rule = ('(a) 7 byte streams + a 3-window stream + a multi-byte text stream x 15 read-call menus (read n / -1 / 0, '
             'readexactly, readline, readuntil with one, several and regex separators incl. overlapping prefixes) x '
@@ -1047,7 +1266,10 @@ def main(tier, seed):
             '(at creation or by redirect_stdin) after every number 0..15 of deliveries; a pipe into a process that does not '
             'read, then a new target for the blocked producer; (d) two write+drain rounds under 5 write-buffer limit settings (incl. low-water 0 and high 0), all delivery '
             'orders within the bound, and connection loss at every step; two writers of one channel (stdout, stderr) '
-            'draining after each write: no drain() returns while writing is paused'
+            'draining after each write: no drain() returns while writing is paused; (e) a server handler reading stdin '
+            'while the client interleaves chunks with signals, breaks and terminal size changes: 5 scripts + a text one x 10 '
+            'call menus x packet sizes, every interleaving of packet delivery and reader calls within the bound: data between '
+            'two events splits like a stream ending there, every event is raised once, in place'
             % len(orders))
     return core.finish(PROP, tier, seed, 'model_checking', acc, t0, rule,
                        {'stream_execs': n_a, 'exit_orders': len(orders), 'deviation_bound': 2 if tier == 'quick' else 3},
@@ -1068,6 +1290,12 @@ def replay(rep):
                 for k, d in obs['viol']:
                     full.violation(k, d, r)
         acc = full
+    elif r['kind'] == 'inband':
+        acc = core.Acc()
+        for c, _b in inband_jobs('thorough'):
+            if (c['name'], c['cname'], c['pkt']) == (r['name'], r['cname'], r['pkt']):
+                for k, d in inband_run(c, core.Chooser(r['choices']))['viol']:
+                    acc.violation(k, d, r)
     elif r['kind'] == 'exit':
         acc = exit_worker([tuple(r['order'])])
     elif r['kind'] == 'drain2':
